@@ -336,7 +336,13 @@ class GroupTrigger(Monitor):
                 if o != m and o not in live and o[0] in qmembers)
             was_queued = m in pool and pool[m].state.is_queued
             qfull[m] = (not was_queued) and (n_active + others >= limit)
+        # inner members removed while their jobs-submit command is running
+        inflight = tuple(
+            m for m in members
+            if m not in starts and m in pool and had_job[m]
+            and pool[m].state.status == 'preparing')
         trig = {
+            'inflight': inflight,
             'members': members, 'starts': starts, 'live': live,
             'ignored': ignored, 'flow': cmd['flow'], 'base': base,
             'subs': {}, 'qfull': qfull, 'F': None, 'had_job': had_job,
@@ -509,6 +515,12 @@ class GroupTrigger(Monitor):
             elif trig['qfull'].get(m) and paused:
                 continue
             role = 'start' if m in trig['starts'] else 'inner'
+            if m in trig.get('inflight', ()):
+                # root cause class of its own (recorded finding): the job
+                # of the removed proxy is submitted all the same and the
+                # respawned proxy, which re-uses the submit number, takes
+                # its messages for its own
+                role += ':removed-while-jobs-submit-in-flight'
             out.append(self.viol(
                 f'member-never-ran:{role}',
                 f'{m[1]}/{m[0]} ({role} member of the triggered group '
@@ -521,7 +533,8 @@ class GroupTrigger(Monitor):
 
 def prep_window_members(w: World, ref: RefGraph, tids) -> List[Inst]:
     """Members the trigger would remove (they have in-group prerequisites)
-    while their job submission command is queued but not yet started."""
+    while they are in job preparation (submission command queued or
+    running)."""
     members = {parse_inst(t) for t in tids}
     out = []
     pool = w.schd.pool
@@ -529,8 +542,8 @@ def prep_window_members(w: World, ref: RefGraph, tids) -> List[Inst]:
         it = pool._get_task_by_id(f'{p}/{t}')
         if it is None or it.state.status != 'preparing':
             continue
-        if (str(p), t, int(it.submit_num)) in w.env.jobs:
-            continue
+        # (both halves of the window: command queued but not yet started,
+        # and command running - the job is not submitted yet)
         inner = any(
             (a[1], p + a[2]) in members and (a[1], p + a[2]) != (t, p)
             for e in ref.exprs(t, p) for a in atoms(e)
